@@ -154,6 +154,17 @@ def customEntriesDistinctB (o : BuildOpts) (ps : List Policy) : Bool :=
 def hypsAllB (o : BuildOpts) (ps : List Policy) (req : Request) : Bool :=
   hypsB o ps req && customEntriesDistinctB o ps
 
+/-- The rule the compiler effectively translates for a policy of the given action: the rule itself
+    (ALLOW) or its remaining conditions (every other action). -/
+def effectiveRule (tcp : Bool) (p : Policy) (r : Rule) : Rule :=
+  if p.action == .allow then r else remainingRule tcp p.ns r
+
+/-- All hypotheses of `compile_all_exact` as one computable check. -/
+def hypsOnB (o : BuildOpts) (ps : List Policy) (req : Request) : Bool :=
+  (ps.all fun p => p.rules.all fun r =>
+      migrationOKB o p.ns (effectiveRule o.forTCP p r) && ruleInScope o req p.ns (effectiveRule o.forTCP p r)) &&
+  req.peerOK && entriesDistinctB o ps && customEntriesDistinctB o ps
+
 def translatableB (o : BuildOpts) (ps : List Policy) : Bool :=
   ps.all fun p => p.rules.all (ruleTranslatedB o p.ns)
 
